@@ -43,7 +43,12 @@ func c16Render(c c16Case, variant int, rnd *rand.Rand) string {
 	if variant&1 == 1 {
 		from, to = c.b, c.a
 	}
-	deco := (variant >> 2) % 6
+	// the decoration walks through its list with the case and the variant
+	kh := 0
+	for _, ch := range []byte(c.key()) {
+		kh = (kh*31 + int(ch)) & 0xffff
+	}
+	deco := ((variant >> 2) + kh) % 8
 	party := func(p c16Party, other bool) string {
 		isSIP := strings.HasPrefix(p.uri, "sip:") || strings.HasPrefix(p.uri, "sips:")
 		uri := p.uri
@@ -66,6 +71,17 @@ func c16Render(c c16Case, variant int, rnd *rand.Rand) string {
 				uri += ";x=1?Subject=hi"
 			}
 			return "Bob <" + uri + ">;extra=1" + tagp + ";other"
+		case 6:
+			// URI headers only, their value containing a further '?'
+			if isSIP {
+				uri += "?Subject=who?me"
+			}
+			return "<" + uri + ">" + tagp
+		case 7:
+			if isSIP {
+				uri += "?Subject=Lunch?&Priority=urgent"
+			}
+			return "\"Help Desk\" <" + uri + ">" + tagp + ";x=y"
 		case 4:
 			// bare addr-spec (legal only without URI params; ';' then starts header params)
 			if strings.ContainsAny(uri, ";?,") {
@@ -131,13 +147,13 @@ type c16Monitor struct {
 
 func TestVerifC16(t *testing.T) {
 	run := ev.New("C16", "exploration",
-		"all assignments of (Call-ID, two tags, two URIs) over small alphabets (equal URIs, equal tags, '-' values included) x orientation x request (10 methods) / response (11 status codes incl. 100 and 1xx) x 6 decorations x 4 header-name spellings, a host written with capitals, plus random long identifiers; "+
+		"all assignments of (Call-ID, two tags, two URIs) over small alphabets (equal URIs, equal tags, '-' values included) x orientation x request (10 methods) / response (11 status codes incl. 100 and 1xx) x 8 decorations (display names, URI parameters, URI headers - also with a further '?' in their value -, header parameters, bare addr-spec) x 4 header-name spellings, users that differ only inside a %HH escape, a host written with capitals, plus random long identifiers; "+
 			"monitor: identifier <-> canonical key must be a bijection and tag-less messages must yield no identifier; distinct = distinct canonical keys")
 	// (values whose concatenations coincide - "a"+"11" / "a1"+"1", "sip:h"+"21" / "sip:h2"+"1" -
 	// are there for identifiers that lose a boundary between their parts)
 	callIDs := []string{"a", "a-b", "b", "a-b-1", "a1"}
 	tags := []string{"1", "b-1", "2", "1-2", "-", "11", "21"}
-	uris := []string{"sip:h", "sip:u@h", "sip:u@h:5060", "sip:v@h", "sip:u@g", "tel:+1", "urn:service:sos", "sip:h-2", "sip:h2", "sip:u@Big.Host"}
+	uris := []string{"sip:h", "sip:u@h", "sip:u@h:5060", "sip:v@h", "sip:u@g", "tel:+1", "urn:service:sos", "sip:h-2", "sip:h2", "sip:u@Big.Host", "sip:a%2Bb@h", "sip:a%3Bb@h"}
 	if ev.Thorough() {
 		callIDs = append(callIDs, "1", "a-1", "x@h", "-")
 		tags = append(tags, "a", "2-b", "a-b")
